@@ -182,6 +182,7 @@ type sx struct {
 	opaqueFns map[string]bool
 	rlog      []readEvent
 	facts     []loopFact
+	bind      map[string]int64
 }
 
 type readEvent struct {
@@ -360,7 +361,44 @@ func (s *sx) baseZero(l Lin) bool {
 	if neg.String() < l.String() {
 		l = neg
 	}
-	return s.decide("(" + l.String() + ")==0")
+	res := s.decide("(" + l.String() + ")==0")
+	// x == k for a single symbol: from here on the symbol is that constant
+	if res && len(l.T) == 1 {
+		for a, c := range l.T {
+			if c == 1 || c == -1 {
+				if s.bind == nil {
+					s.bind = map[string]int64{}
+				}
+				s.bind[a] = -l.C * c
+			}
+		}
+	}
+	return res
+}
+
+// subst replaces symbols that an equality decision has fixed to a constant.
+func (s *sx) subst(l Lin) Lin {
+	if len(s.bind) == 0 || len(l.T) == 0 {
+		return l
+	}
+	hit := false
+	for a := range l.T {
+		if _, ok := s.bind[a]; ok {
+			hit = true
+		}
+	}
+	if !hit {
+		return l
+	}
+	r := Lin{C: l.C, T: map[string]int64{}}
+	for a, c := range l.T {
+		if k, ok := s.bind[a]; ok {
+			r.C += c * k
+		} else {
+			r.T[a] = c
+		}
+	}
+	return r
 }
 
 // ---- execution ----
@@ -512,6 +550,9 @@ func fieldType(t types.Type, idx int) types.Type {
 
 func (s *sx) eval(f *frame, v ssa.Value) SV {
 	if sv, ok := f.vals[v]; ok {
+		if sv.K == kInt && len(s.bind) > 0 {
+			sv.L = s.subst(sv.L)
+		}
 		return sv
 	}
 	switch x := v.(type) {
@@ -719,8 +760,8 @@ var diamondPrev = &ssa.BasicBlock{}
 // the join become if-then-else atoms. Returns the join block, or nil when the shape does not apply
 // or the condition is already decided.
 func (s *sx) tryMergeDiamond(f *frame, b *ssa.BasicBlock, cv SV) *ssa.BasicBlock {
-	if cv.K != kBool || (cv.Str != "cmp" && cv.Str != "input") {
-		return nil
+	if cv.K != kBool || cv.Str != "cmp" {
+		return nil // boolean inputs are real classes
 	}
 	key := ""
 	if cv.Str == "cmp" {
